@@ -269,6 +269,7 @@ func report(prog *Program, cfg LoadConfig, id string, res *PropertyResult, known
 				"instructions":         progInt(prog, func(p *Program) int { return p.NumInstr }),
 				"anchors":              anchorsOf(prog),
 				"store_operation_sites": storeOpsOf(prog),
+				"helpers_cloned_per_call_site": clonedOf(prog),
 			},
 		}
 		if extra != nil {
@@ -364,4 +365,15 @@ func printSpecs() {
 	}
 	b, _ := json.MarshalIndent(all, "", " ")
 	fmt.Println(string(b))
+}
+
+func clonedOf(p *Program) []string {
+	if p == nil {
+		return nil
+	}
+	out := append([]string{}, p.Cloned...)
+	if p.CloneNote != "" {
+		out = append(out, p.CloneNote)
+	}
+	return out
 }
